@@ -49,6 +49,7 @@ type Frame struct {
 	top      bool // the function under verification
 	callOrd  map[string]int
 	loops    map[*ssa.BasicBlock]*loopInfo
+	pendingBindings []Value
 }
 
 type loopInfo struct {
